@@ -180,6 +180,8 @@ class I:
 
     def sin(self):
         # sin(x) = cos(x - pi/2): extrema of sin at pi/2 + 2 pi n (max), -pi/2 + 2 pi n (min)
+        if self.lo == 0.0 and self.hi == 0.0:
+            return I(0.0)           # sin(+-0) is +-0 exactly (IEEE 754 / C99): the program sees a zero, e.g. in a truth test
         return _trig(self, math.sin, math.pi / 2)
 
     def hull(self, o):
